@@ -604,6 +604,10 @@ component value. Combines input with target component if it is populated.
 */
 func copyComponentValue(targetComponent *Node, sourceComponent *Node) *Node {
 	if sourceComponent != nil {
+		// Work on a copy of the source tree: the same source component is copied into several statements
+		// (e.g., statements extrapolated from component pairs), and combining it with the target re-parents it.
+		// Sharing the nodes would leave all but the last statement with parent links pointing into another statement.
+		sourceComponent = sourceComponent.copyTree()
 		// If target component is empty, simply substitute ...
 		if targetComponent == nil {
 			targetComponent = sourceComponent
@@ -617,6 +621,28 @@ func copyComponentValue(targetComponent *Node, sourceComponent *Node) *Node {
 		}
 	}
 	return targetComponent
+}
+
+/*
+Returns a copy of the tree below (and including) the given node, with parent links of the copied
+nodes pointing into the copy. Entries (e.g., nested statements) and private node links are shared
+with the original.
+*/
+func (n *Node) copyTree() *Node {
+	if n == nil {
+		return nil
+	}
+	c := *n
+	c.Parent = nil
+	if n.Left != nil {
+		c.Left = n.Left.copyTree()
+		c.Left.Parent = &c
+	}
+	if n.Right != nil {
+		c.Right = n.Right.copyTree()
+		c.Right.Parent = &c
+	}
+	return &c
 }
 
 /*
